@@ -20,7 +20,8 @@ EXPLANATION = (
     " Also: (R5) no skip path in the reachability loops; (R6) no fail-open version resolution under the collector's metadata read."
     ' (R7) who-may-delete census (C09.R3); (R8) no function the collector reaches (metadata resolution, manifest readers, backends) converts a failure into a default answer.'
     ' (R9) the manifest parsers drop no entry (C14.R7).'
-    " (R12) recovery orders versions as integers; (R13) strict metadata decoder; (R14) no lexical path normalisation before the collector's `..` guard (C17.R4). R1 accepts a handler that guards a pure computation and raises on every path.")
+    " (R12) recovery orders versions as integers; (R13) strict metadata decoder; (R14) no lexical path normalisation before the collector's `..` guard (C17.R4). R1 accepts a handler that guards a pure computation and raises on every path."
+    " (R16) the legacy marker target is comparable with listed paths (C05.R2); R3 requires the '..' guard to test the NORMALISED path; R1 follows sentinel results (NaN) of stat helpers through the comparisons that use them.")
 NOT_DECIDED = "run-time fault enumeration; corruption classes of files that still parse"
 
 GC = "garbage_collector.GarbageCollector"
